@@ -203,6 +203,11 @@ func stdMutatesArg0(f *ssa.Function) bool {
 	case "math/rand", "math/rand/v2":
 		return name == "Shuffle"
 	}
+	// (*sync.Once).Do writes nothing but the Once itself, exactly once and with a
+	// happens-before edge to every later Do: it is how a read-only table is built lazily
+	if p.Path() == "sync" && name == "Do" && f.Signature.Recv() != nil && strings.Contains(f.Signature.Recv().Type().String(), "sync.Once") {
+		return false
+	}
 	// pointer-receiver methods of std types may write their receiver
 	if f.Signature.Recv() != nil {
 		if _, ok := f.Signature.Recv().Type().Underlying().(*types.Pointer); ok {
